@@ -1,11 +1,15 @@
 import SunriseVerif.Model.ShareClass
 /-!
-C10 — machine-checked witness for the RECORDED (not fixed) finding C10-SLASH: NonVotingUndelegate records the
-requested amount, not `MsgUndelegateResponse.Amount`; after a slash staking releases fewer bond tokens than recorded,
-`WithdrawUnbonded`'s Convert fails and the end-blocker returns an error (the chain halts).  The full-strength
-statement "every accepted undelegation is paid at the first end-block at or after completion" is therefore false
-without the staking boundary hypothesis of `undelegate_paid_once_partial`.  Replayed on the real application by the
-thorough tier of the `share` suite (oracle check `no_halt`, class `after_slash`).
+C10 — machine-checked witness for the RECORDED finding C10-SLASH: NonVotingUndelegate records the requested amount,
+not `MsgUndelegateResponse.Amount`; after a slash staking releases fewer bond tokens than recorded and
+`WithdrawUnbonded`'s Convert fails.  Since the end-blocker fix (each payout of `GarbageCollectUnbonded` runs on a branch
+of the state; a failing payout is dropped and logged, its record stays) this NO LONGER HALTS THE CHAIN
+(`Sunrise.C10.block_never_halts`: for every state and every input).  What remains of the finding: the delegator is not
+paid until the module account happens to hold enough bond tokens — the unbonding stays queued and is tried again in
+every later block (`Sunrise.C10.endBlock_unpaid_kept`).  The full-strength statement "every accepted undelegation is
+paid at the first end-block at or after completion" is therefore still false without the staking boundary hypothesis
+(staking released every bond token the queue recorded, see `undelegate_paid_once_partial`).  Replayed on the real
+application by the thorough tier of the `share` suite (oracle check `no_halt`, class `after_slash`).
 -/
 namespace Sunrise.C10.Witness
 open Sunrise Sunrise.ShareClass
@@ -15,9 +19,18 @@ def s0 : St :=
   { St.init (Bank.empty.credit "a3" "urise" 1000) with
     unb := [⟨0, "a3", 100, 20000000000⟩], nextId := 1 }
 
-/-- staking releases 99 (one unit lost to the validator's exchange rate after a slash): the end-blocker fails -/
-theorem endblock_halts_when_staking_releases_less :
-    (step s0 (.block 21000000000 99 [])).2.cls = "halt" := by decide
+/-- staking releases 99 (one unit lost to the validator's exchange rate after a slash): the payout cannot be made; the
+    end-blocker does NOT fail, nobody is paid, the unbonding stays queued — and a later block in which staking
+    releases the missing unit pays it, exactly once -/
+theorem endblock_skips_when_staking_releases_less :
+    (step s0 (.block 21000000000 99 [])).2.cls = "ok"
+    ∧ (step s0 (.block 21000000000 99 [])).1.bank.bal "a3" "urise" = 1000
+    ∧ (step s0 (.block 21000000000 99 [])).1.unb = [⟨0, "a3", 100, 20000000000⟩]
+    ∧ (step (step s0 (.block 21000000000 99 [])).1 (.block 22000000000 1 [])).2.cls = "ok"
+    ∧ (step (step s0 (.block 21000000000 99 [])).1 (.block 22000000000 1 [])).1.bank.bal "a3" "urise" = 1100
+    ∧ (step (step s0 (.block 21000000000 99 [])).1 (.block 22000000000 1 [])).1.unb = []
+    ∧ (step (step (step s0 (.block 21000000000 99 [])).1 (.block 22000000000 1 [])).1 (.block 23000000000 0 [])).1.bank.bal "a3" "urise" = 1100 := by
+  decide
 
 /-- with the full 100 released the same end-block pays the recipient exactly once and empties the queue -/
 theorem endblock_pays_when_staking_releases_all :
